@@ -1,0 +1,179 @@
+//go:build verif
+
+package interp
+
+// Contracts for property C12, third file: the places of cfg.go where the type rules are applied.
+// A rule under contract protects nothing if the walk does not consult it, or ignores its verdict.
+// Checked by /verif/govc. Comments only.
+
+// Composite literals: array/slice, map and struct literals (of script types, and maps of host types)
+// are checked by the rule of their category with all the elements (the type expression, when
+// present, is not an element) and the literal's type; a rule's error is the node's error, and
+// a rejected literal gets no frame slot and no generator.
+//@ lit Interpreter.cfg case:compositeLitExpr#3 () ()
+//@   props C12
+//@   opt safety = off
+//@   opt opaque-calls = *
+//@   opt opaque-havoc = none
+//@   opt record-calls = arrayLitExpr, mapLitExpr, structLitExpr, structBinLitExpr
+//@   opt ignore-contracts = arrayLitExpr, mapLitExpr, structLitExpr, structBinLitExpr
+//@   requires [assume] n != nil && n.typ != nil && sc != nil
+//@   requires [assume] the-case-guard: n.kind == compositeLitExpr
+//@   requires [assume] no-error-so-far: err == nil
+//@   let skip: ite(n.nleft > 0, 1, 0)
+//@   ensures array-and-slice-literals-checked: old(n.typ.cat == arrayT || n.typ.cat == sliceT) ==> called(arrayLitExpr) && lastArg(arrayLitExpr, 1) == old(n.typ) && len(lastArg(arrayLitExpr, 0)) == len(n.child) - skip && forall(k, 0, len(n.child) - skip, lastArg(arrayLitExpr, 0)[k] == n.child[k + skip]) && (lastRes(arrayLitExpr, 0) != nil ==> err != nil)
+//@   ensures map-literals-checked: old(n.typ.cat == mapT) ==> called(mapLitExpr) && lastArg(mapLitExpr, 1) == old(n.typ.key) && lastArg(mapLitExpr, 2) == old(n.typ.val) && len(lastArg(mapLitExpr, 0)) == len(n.child) - skip && forall(k, 0, len(n.child) - skip, lastArg(mapLitExpr, 0)[k] == n.child[k + skip]) && (lastRes(mapLitExpr, 0) != nil ==> err != nil)
+//@   ensures struct-literals-checked: old(n.typ.cat == structT) ==> called(structLitExpr) && lastArg(structLitExpr, 1) == old(n.typ) && len(lastArg(structLitExpr, 0)) == len(n.child) - skip && forall(k, 0, len(n.child) - skip, lastArg(structLitExpr, 0)[k] == n.child[k + skip]) && (lastRes(structLitExpr, 0) != nil ==> err != nil)
+//@   ensures rejected-literal-gets-no-generator: err != nil ==> n.gen == old(n.gen) && n.findex == old(n.findex)
+//@   canary err == nil
+
+// Assignments and definitions: every destination/source pair of a plain assignment goes through
+// assignExpr, and its error ends the walk of the statement.
+//@ trusted func (s *scope) isRedeclared(n) (r)
+//@   pure
+//@ lit Interpreter.cfg for:nleft#2 () ()
+//@   props C12
+//@   opt safety = off
+//@   opt opaque-calls = *
+//@   opt opaque-havoc = none
+//@   opt record-calls = assignExpr
+//@   opt return-after = assignExpr
+//@   opt ignore-contracts = assignExpr, nodeType
+//@   requires [assume] n != nil && n.anc != nil && sc != nil && 0 <= i && i < n.nleft && sbase >= 0 && len(n.child) > sbase + i && forall(k, 0, len(n.child), n.child[k] != nil && n.child[k] != n)
+//@   requires [assume] no-error-so-far: err == nil
+//@   ensures pair-checked-by-assignExpr: n.kind == assignStmt && n.child[i].ident != "_" ==> err != nil || (called(assignExpr) && lastArg(assignExpr, 0) == n && lastArg(assignExpr, 1) == n.child[i] && lastArg(assignExpr, 2) == n.child[sbase + i])
+//@   ensures rule-error-is-the-statement-error: called(assignExpr) ==> err == lastRes(assignExpr, 0)
+//@   canary err == nil
+
+// The single-rule sites: the rule is consulted with the node (or operand) the Go specification names,
+// and its verdict is the node's verdict.  Units end with the statement that calls the rule
+// (opt return-after): the obligations are "reached the rule with the right arguments, or already failed".
+//@ lit Interpreter.cfg case:addressExpr () ()
+//@   props C12
+//@   opt safety = off
+//@   opt opaque-calls = *
+//@   opt opaque-havoc = none
+//@   opt record-calls = addressExpr
+//@   opt return-after = addressExpr
+//@   opt ignore-contracts = addressExpr
+//@   requires [assume] n != nil && len(n.child) >= 1 && n.child[0] != nil
+//@   requires [assume] the-case-guard: n.kind == addressExpr
+//@   requires [assume] no-error-so-far: err == nil
+//@   ensures operand-checked-for-addressability: err != nil || (called(addressExpr) && lastArg(addressExpr, 0) == n)
+//@   ensures rule-error-is-the-node-error: called(addressExpr) ==> err == lastRes(addressExpr, 0)
+//@   canary err != nil
+
+//@ lit Interpreter.cfg case:incDecStmt () ()
+//@   props C12
+//@   opt safety = off
+//@   opt opaque-calls = *
+//@   opt opaque-havoc = none
+//@   opt record-calls = unaryExpr
+//@   opt return-after = unaryExpr
+//@   opt ignore-contracts = unaryExpr
+//@   requires [assume] n != nil
+//@   requires [assume] the-case-guard: n.kind == incDecStmt
+//@   requires [assume] no-error-so-far: err == nil
+//@   ensures operand-checked: called(unaryExpr) && lastArg(unaryExpr, 0) == n && err == lastRes(unaryExpr, 0)
+//@   canary err != nil
+
+//@ lit Interpreter.cfg case:sliceExpr () ()
+//@   props C12
+//@   opt safety = off
+//@   opt opaque-calls = *
+//@   opt opaque-havoc = none
+//@   opt record-calls = sliceExpr
+//@   opt return-after = sliceExpr
+//@   opt ignore-contracts = sliceExpr
+//@   requires [assume] n != nil
+//@   requires [assume] the-case-guard: n.kind == sliceExpr
+//@   requires [assume] no-error-so-far: err == nil
+//@   ensures slice-expression-checked: called(sliceExpr) && lastArg(sliceExpr, 0) == n && err == lastRes(sliceExpr, 0)
+//@   canary err != nil
+
+//@ trusted func (n *node) isType(sc) (r)
+//@   pure
+//@ lit Interpreter.cfg case:starExpr () ()
+//@   props C12
+//@   opt safety = off
+//@   opt opaque-calls = *
+//@   opt opaque-havoc = none
+//@   opt record-calls = starExpr
+//@   opt return-after = starExpr
+//@   opt ignore-contracts = starExpr
+//@   opt inline = lastChild
+//@   requires [assume] n != nil && n.anc != nil && len(n.child) >= 1 && n.child[0] != nil && sc != nil
+//@   requires [assume] the-case-guard: n.kind == starExpr
+//@   requires [assume] no-error-so-far: err == nil
+//@   let typeExpr: (n.anc.kind == defineStmt && len(n.anc.child) == 3 && n.anc.child[1] == n) || (n.anc.kind == valueSpec && n.anc.child[len(n.anc.child)-1] == n) || n.anc.kind == fieldExpr || n.child[0].isType(sc)
+//@   ensures dereferenced-operand-checked: !typeExpr ==> err != nil || (called(starExpr) && lastArg(starExpr, 0) == n.child[0])
+//@   ensures rule-error-is-the-node-error: called(starExpr) ==> err == lastRes(starExpr, 0)
+//@   canary err != nil
+
+//@ lit Interpreter.cfg case:typeAssertExpr#2 () ()
+//@   props C12
+//@   opt safety = off
+//@   opt opaque-calls = *
+//@   opt opaque-havoc = none
+//@   opt record-calls = typeAssertionExpr
+//@   opt return-after = typeAssertionExpr
+//@   opt ignore-contracts = typeAssertionExpr, nodeType
+//@   requires [assume] n != nil && n.anc != nil && forall(k, 0, len(n.child), n.child[k] != nil) && sc != nil
+//@   requires [assume] the-case-guard: n.kind == typeAssertExpr
+//@   requires [assume] no-error-so-far: err == nil
+//@   ensures assertion-checked: len(n.child) != 1 ==> err != nil || (called(typeAssertionExpr) && lastArg(typeAssertionExpr, 0) == n.child[0] && lastArg(typeAssertionExpr, 1) == n.child[1].typ)
+//@   ensures rule-error-is-the-node-error: called(typeAssertionExpr) ==> err == lastRes(typeAssertionExpr, 0)
+//@   canary err != nil
+
+// a[i]: a map index is checked as an assignment to the key type, any other index by the index rule with
+// the length of the array (or of the array pointed to) when it is known; an operand that cannot be
+// indexed is an error whatever the index is.
+//@ lit Interpreter.cfg case:indexExpr#2 () ()
+//@   props C12
+//@   opt safety = off
+//@   opt loops = havoc
+//@   opt opaque-calls = *
+//@   opt opaque-havoc = none
+//@   opt record-calls = index, assignment
+//@   opt return-after = index, assignment
+//@   opt ignore-contracts = index, assignment
+//@   requires [assume] n != nil && len(n.child) >= 2 && n.child[0] != nil && n.child[1] != nil && n.child[0].typ != nil && sc != nil
+//@   requires [assume] the-case-guard: n.kind == indexExpr
+//@   requires [assume] no-error-so-far: err == nil
+//@   ensures [local:t] an-index-rule-is-consulted: t.cat != funcT && t.cat != genericT && t.cat != structT ==> err != nil || called(index) || called(assignment)
+//@   ensures [local:t] indexing-a-function-needs-a-type-argument: t.cat == funcT && !old(n.child[1]).isType(sc) ==> err != nil
+//@   ensures index-checked-on-the-index-operand: called(index) ==> lastArg(index, 0) == n.child[1] && err == lastRes(index, 0)
+//@   ensures [local:typ] array-index-checked-against-the-length: called(index) && typ.Kind() == reflect.Array ==> lastArg(index, 1) == typ.Len()
+//@   ensures [local:typ] index-rule-only-for-indexable-operands: called(index) ==> typ.Kind() == reflect.Array || typ.Kind() == reflect.Slice || typ.Kind() == reflect.String || (typ.Kind() == reflect.Ptr && typ.Elem().Kind() == reflect.Array)
+//@   ensures [local:t] map-key-checked-against-the-key-type: called(assignment) ==> lastArg(assignment, 0) == n.child[1] && lastArg(assignment, 1) == t.key && err == lastRes(assignment, 0)
+//@   canary err != nil
+
+// Calls: a builtin call is checked by the builtin rule under the builtin's name, a conversion T(x) by the
+// conversion rule (exactly one operand), every other call by the arguments rule against the callee; in
+// each case with all the argument nodes and the spread flag of the call.
+//@ trusted func isBuiltinCall(n, sc) (r)
+//@   pure
+//@ trusted func isBinCall(n, sc) (r)
+//@   pure
+//@ lit Interpreter.cfg case:callExpr#1 () ()
+//@   props C12
+//@   opt safety = off
+//@   opt loops = havoc
+//@   opt opaque-calls = *
+//@   opt opaque-havoc = none
+//@   opt record-calls = builtin, conversion, arguments
+//@   opt return-after = builtin, conversion, arguments
+//@   opt ignore-contracts = builtin, conversion, arguments, nodeType
+//@   requires [assume] n != nil && n.anc != nil && len(n.child) >= 1 && forall(k, 0, len(n.child), n.child[k] != nil) && sc != nil
+//@   requires [assume] the-case-guard: n.kind == callExpr
+//@   requires [assume] no-error-so-far: err == nil
+//@   let generic: n.child[0].kind == indexListExpr
+//@   let bltn: !generic && isBuiltinCall(n, sc)
+//@   let conv: !generic && !isBuiltinCall(n, sc) && n.child[0].isType(sc)
+//@   ensures builtin-call-checked: old(bltn) ==> err != nil || (called(builtin) && lastArg(builtin, 0) == n.child[0].ident && lastArg(builtin, 1) == n && len(lastArg(builtin, 2)) == len(n.child) - 1 && forall(k, 1, len(n.child), lastArg(builtin, 2)[k-1] == n.child[k]) && lastArg(builtin, 3) == (n.action == aCallSlice))
+//@   ensures conversion-has-one-operand: old(conv) && len(n.child) != 2 ==> err != nil
+//@   ensures conversion-checked: old(conv) && len(n.child) == 2 ==> err != nil || called(conversion) && lastArg(conversion, 0) == n.child[1] && lastArg(conversion, 1) == n.child[0].typ
+//@   ensures host-function-call-checked: old(!generic && !bltn && !conv && isBinCall(n, sc)) ==> err != nil || called(arguments) && lastArg(arguments, 0) == n && lastArg(arguments, 2) == n.child[0] && len(lastArg(arguments, 1)) == len(n.child) - 1 && forall(k, 1, len(n.child), lastArg(arguments, 1)[k-1] == n.child[k]) && lastArg(arguments, 3) == (n.action == aCallSlice)
+//@   ensures script-function-call-checked: old(!generic && !bltn && !conv && !isBinCall(n, sc)) ==> err != nil || (called(arguments) && lastArg(arguments, 0) == n && lastArg(arguments, 2) == n.child[0] && len(lastArg(arguments, 1)) == len(n.child) - 1 && forall(k, 1, len(n.child), lastArg(arguments, 1)[k-1] == n.child[k]) && lastArg(arguments, 3) == (n.action == aCallSlice))
+//@   ensures rule-error-is-the-node-error: (called(builtin) ==> err == lastRes(builtin, 0)) && (called(conversion) ==> err == lastRes(conversion, 0)) && (called(arguments) ==> err == lastRes(arguments, 0))
+//@   canary err != nil
